@@ -6,7 +6,7 @@
    (the check runs every sequential history against both variants).  [Defective] is today's algorithm.
    The "for all interleavings" theorems are about [run_sched c (sys0 progs) sched] for EVERY list of client
    programs and EVERY schedule (list of thread indices; each element = one atomic sync.Map / atomic step). *)
-From OV Require Import Common.Base C20.Model C20.Proofs.
+From OV Require Import Common.Base C20.Model C20.Proofs C20.Proofs2.
 Open Scope Z_scope.
 
 (* ---------------------------------------------------------------- label tuples and the hash *)
@@ -284,3 +284,66 @@ Example C20_conc_removed_is_stale_nonvacuous :
   (exists th, nth_error (ths x) 0 = Some th /\ hd_error (t_out th) = Some (ResB false)).
 Proof. vm_compute. repeat split; try reflexivity. eexists; split; reflexivity. Qed.
 Print Assumptions C20_conc_removed_is_stale_nonvacuous.
+
+(* ---------------------------------------------------------------- per-series conservation in observable form *)
+(* [shown k s t]      = value AppendSnapshot shows for the series of tuple t (what WithLabelValues(t) resolves to), 0 if none;
+   [retired_of k s t] = final values of t's series removed by UnregisterSeries (readable through the handles still held);
+   [emitted_to c progs t] = weight of the emissions the client programs direct at t (by tuple, or through the handle of
+                        their k-th WithLabelValues call) — a static function of the programs;
+   [attributed x t]   = t's share of the three drop metrics (tallied client-side; a ghost).
+   Hypotheses: repaired variant (= /repo HEAD), counter or histogram, well-formed programs (no emit through a handle never
+   obtained, no wrong arity), quiescence.  The ghost [noop] is 0. *)
+Theorem C20_conc_per_tuple_conservation : forall c progs sched,
+  c_kind c <> KGauge -> c_variant c = Repaired -> wf_progs c progs = true ->
+  let x := run_sched c (sys0 progs) sched in
+  quiescent x = true ->
+  (forall t, (shown (c_kind c) (sh x) t + retired_of (c_kind c) (sh x) t + attributed x t) mod M64
+             = emitted_to c progs t mod M64) /\
+  (drops (sh x) + unknown (sh x) + stales (sh x)) mod M64 = attributed_all x mod M64 /\
+  noop (sh x) = 0.
+Proof. exact conc_per_tuple. Qed.
+Print Assumptions C20_conc_per_tuple_conservation.
+
+(* Ghost-free: if the three internal drop metrics read 0 at quiescence (and less than 2^64 was emitted, so nothing wrapped),
+   then for EVERY tuple the snapshot value plus the final values of its unregistered series is what was emitted to it. *)
+Theorem C20_conc_series_exact : forall c progs sched,
+  c_kind c <> KGauge -> c_variant c = Repaired -> wf_progs c progs = true ->
+  nonneg_progs (c_kind c) progs -> progs_weight (c_kind c) progs < M64 ->
+  let x := run_sched c (sys0 progs) sched in
+  quiescent x = true ->
+  drops (sh x) = 0 -> unknown (sh x) = 0 -> stales (sh x) = 0 ->
+  forall t, (shown (c_kind c) (sh x) t + retired_of (c_kind c) (sh x) t) mod M64 = emitted_to c progs t mod M64.
+Proof. exact conc_series_exact. Qed.
+Print Assumptions C20_conc_series_exact.
+
+Lemma nonneg_w1 : nonneg_progs KCounter w1_progs.
+Proof. repeat constructor; simpl; lia. Qed.
+Lemma nonneg_w4 : nonneg_progs KCounter w4_progs.
+Proof. repeat constructor; simpl; lia. Qed.
+
+(* the same statement is FALSE of the two defective machines: every hypothesis holds, the conclusion fails *)
+Theorem C20_conc_series_exact_refuted :
+  (let c := cfg_of Defective 1 in let x := run_sched c (sys0 w1_progs) w1_sched in
+   wf_progs c w1_progs = true /\ progs_weight KCounter w1_progs < M64 /\ quiescent x = true /\
+   drops (sh x) = 0 /\ unknown (sh x) = 0 /\ stales (sh x) = 0 /\
+   (shown KCounter (sh x) tA + retired_of KCounter (sh x) tA) mod M64 = 0 /\ emitted_to c w1_progs tA mod M64 = 5) /\
+  (let c := cfg_of LoadAndDel 2 in let x := run_sched c (sys0 w4_progs) w4_sched in
+   wf_progs c w4_progs = true /\ progs_weight KCounter w4_progs < M64 /\ quiescent x = true /\
+   drops (sh x) = 0 /\ unknown (sh x) = 0 /\ stales (sh x) = 0 /\
+   (shown KCounter (sh x) tA + retired_of KCounter (sh x) tA) mod M64 = 0 /\ emitted_to c w4_progs tA mod M64 = 1).
+Proof. vm_compute. repeat split; reflexivity. Qed.
+Print Assumptions C20_conc_series_exact_refuted.
+
+Example C20_conc_series_exact_nonvacuous :
+  let c := cfg_of Repaired 1 in let x := run_sched c (sys0 w1_progs) (w1_sched ++ w1_sched) in
+  wf_progs c w1_progs = true /\ quiescent x = true /\ drops (sh x) = 0 /\ unknown (sh x) = 0 /\ stales (sh x) = 0 /\
+  shown KCounter (sh x) tA = 5 /\ emitted_to c w1_progs tA = 5 /\ shown KCounter (sh x) tB = 0 /\ emitted_to c w1_progs tB = 0 /\
+  In (tA, {| v_main := 5; v_cnt := 0; v_bk := [0] |}) (snapshot (sh x)).
+Proof. vm_compute. repeat split; try reflexivity. left; reflexivity. Qed.
+Print Assumptions C20_conc_series_exact_nonvacuous.
+
+(* [shown] is what the snapshot contains *)
+Theorem C20_shown_is_snapshot_entry : forall k s t id h,
+  lookup s t = Some id -> get_handle s id = Some h -> In (t, h_val h) (snapshot s) /\ shown k s t = measure k (h_val h).
+Proof. exact shown_in_snapshot. Qed.
+Print Assumptions C20_shown_is_snapshot_entry.
